@@ -175,7 +175,11 @@ func (g *sessGen) value() string {
 		return s + " table)"
 	case x < 84:
 		g.hist("value:lambda")
-		return common.Pick(g.r, []string{"(lambda (x) (* x 2))", "(lambda (x y) (list x y))", "(lambda () 3)", "(lambda (x &optional (y 2)) (+ x y))"})
+		if g.r.Chance(60) {
+			g.curFun = "" // a variable's value is loaded before every function: it calls none
+			return fmt.Sprintf("(lambda (x) %s)", g.expr([]string{"x"}, 2))
+		}
+		return common.Pick(g.r, []string{"(lambda (x) (* x 2))", "(lambda (x &rest y) (list x y))", "(lambda (x &optional (y 2)) (+ x y))"})
 	case x < 90:
 		g.hist("value:type-symbol")
 		return common.Pick(g.r, []string{"'fixnum", "'list", "'string"})
@@ -244,7 +248,7 @@ func (g *sessGen) expr(vars []string, depth int) string {
 			if k == "(x)" || k == "(x &optional (y 2))" || k == "(x &rest r)" || k == "(x &key (k 3) j)" {
 				// never a cycle (probes must terminate); reloaded in name order: a tame body only calls what sorts
 				// before it (a function called before it is defined loses its name in the next snapshot)
-				if !g.reaches(n, g.curFun, map[string]bool{}) && (g.wild || n < g.curFun) {
+				if !g.reaches(n, g.curFun, map[string]bool{}) && ((g.wild && g.curFun != "") || n < g.curFun) {
 					cands = append(cands, n)
 				}
 			}
@@ -310,7 +314,7 @@ func (g *sessGen) expr(vars []string, depth int) string {
 					ms = append(ms, m)
 				}
 				sort.Strings(ms)
-				if len(ms) > 0 {
+				if len(ms) > 0 && g.curFun != "" {
 					g.hist("expr:macro-call")
 					return fmt.Sprintf("(%s %s)", ms[g.r.Intn(len(ms))], atom())
 				}
@@ -504,7 +508,11 @@ func (g *sessGen) step() {
 		n := g.pick(macNames)
 		g.hist("op:defmacro")
 		var f string
-		switch g.r.Intn(3) {
+		switch g.r.Intn(5) {
+		case 3:
+			f = fmt.Sprintf("(defmacro %s (x) (let* ((a (list '* x %d)) (b (list '+ a 1))) (cond ((consp b) b) (t a))))", n, 2+g.r.Intn(5))
+		case 4:
+			f = fmt.Sprintf("(defmacro %s (x) \"%s\" (let (a b) (setq a (list '+ x %d) b (list '* a 2)) (when (consp b) (setq a b)) a))", n, g.doc(), g.r.Intn(9))
 		case 0:
 			f = fmt.Sprintf("(defmacro %s (x) (list '+ x x %d))", n, g.r.Intn(9))
 		case 1:
@@ -730,7 +738,12 @@ func (g *sessGen) step() {
 			g.add(fmt.Sprintf("(defmethod %s ((a %s) b) (list '%s-%s b))", n, ty, n, ty))
 			g.probe(fmt.Sprintf("(%s %s 2)", n, arg))
 		} else {
-			g.add(fmt.Sprintf("(defmethod %s ((a %s)) (list '%s-%s a))", n, ty, n, ty))
+			if ty == "fixnum" {
+				g.curFun = n // the methods are written with the generic function, in name order with the functions
+				g.add(fmt.Sprintf("(defmethod %s ((a %s)) (list '%s-%s %s))", n, ty, n, ty, g.expr([]string{"a"}, 2)))
+			} else {
+				g.add(fmt.Sprintf("(defmethod %s ((a %s)) (list '%s-%s a))", n, ty, n, ty))
+			}
 			g.probe(fmt.Sprintf("(%s %s)", n, arg))
 		}
 	default:
@@ -760,6 +773,7 @@ func genSession(r *common.Rng, hist func(string), wild, modelled bool) (forms, p
 	for _, v := range common.SortedKeys(g.vars) {
 		if !g.instVars[v] {
 			g.probe(v)
+			g.probe(fmt.Sprintf("(funcall %s 3)", v)) // when the value is a lambda: its behaviour (an error otherwise, in both)
 		}
 		g.probe(fmt.Sprintf("(documentation '%s 'variable)", v))
 	}
